@@ -169,7 +169,7 @@ def what(tag, toks, d):
             (d[2] - 100) if len(d) > 2 else "?", d[1] if len(d) > 1 else "?", d)
     which = d[2] if len(d) > 2 else "?"
     return "observed-address answer %s violates the property after step %s (diag %s)" % (
-        "Addrs(0)" if which == -1 else "AddrsFor(query %s)" % which, d[1] if len(d) > 1 else "?", d)
+        "Addrs(0)" if which == -1 else "Addrs(0) (reports more for a local address than AddrsFor does)" if which == -3 else "AddrsFor(query %s)" % which, d[1] if len(d) > 1 else "?", d)
 
 
 if __name__ == "__main__":
